@@ -3,7 +3,7 @@
    MutableNodeRefList (addNodeInDocOrder with its three search strategies, addNodesInDocOrder, Union). *)
 From Coq Require Import List Arith Bool Lia.
 Import ListNotations.
-Require Import XV.GenNodelist XV.NodeListDefs XV.DocOrderModel XV.NodeListModel XV.NodeListFlagModel XV.NodeListMultiModel.
+Require Import XV.GenNodelist XV.NodeListDefs XV.DocOrderModel XV.NodeListModel XV.NodeListFlagModel XV.NodeListMultiModel XV.NodeListProducerModel.
 
 (* ---- 1. structural document order = pre-order index order, for every tree and every pair of nodes
         (the code asserts that neither node is the document node; the equality even holds when one is) *)
@@ -402,6 +402,22 @@ Theorem nullClear_keeps_flag_honest : forall W l ps, honest W l = true -> honest
 Proof. exact nullClear_keeps_flag_honest_lemma. Qed.
 Print Assumptions nullClear_keeps_flag_honest.
 
+(* ---- 6. flag_trust_sound, partial: the producers of XPath.cpp for eight axes (child, attribute, parent, self,
+        ancestor, ancestor-or-self, following-sibling, preceding-sibling), with any node test, deliver valid nodes
+        and set eDocumentOrder / eReverseDocumentOrder only on lists that are in that order; the end of
+        XPath::step turns a reverse-order list into a document-order one.  Guard = the list of modelled producers
+        (findDescendants, findFollowing, findPreceeding, findNamespace are not modelled). *)
+Theorem flag_trust_sound_partial : forall t test ctx, valid t ctx = true ->
+  forall P, In P producers ->
+    honest_produced t (P t test ctx) = true /\
+    snd (step_finish (P t test ctx)) = DocOrder /\ honest_produced t (step_finish (P t test ctx)) = true.
+Proof.
+  intros t test ctx Hc P HP. pose proof (producers_honest t test ctx Hc P HP) as H. split; [exact H|].
+  apply step_finish_doc_order; [exact H|]. unfold producers in HP. simpl in HP.
+  destruct HP as [<-|[<-|[<-|[<-|[<-|[<-|[<-|[<-|[]]]]]]]]]; discriminate.
+Qed.
+Print Assumptions flag_trust_sound_partial.
+
 (* ---- non-vacuity: the hypotheses are satisfiable, on an indexed and on a non-indexed document *)
 Definition T1 : tree := Node 0 [Node 2 [Node 0 []; Node 1 [Node 0 []]; Node 0 []]].
 Definition Wi : world := [(T1, true)].
@@ -423,6 +439,13 @@ Example hypotheses_satisfiable_nonindexed :
   addNodeInDocOrder Wn [e_a1; e_ca; e_c2] e_c0 = Some [e_a1; e_c0; e_ca; e_c2] /\
   addNodeInDocOrder Wn [e_a1; e_ca; e_c2] e_doc = Some [e_doc; e_a1; e_ca; e_c2] /\
   isNodeAfter_struct T1 (snd e_ca) (snd e_c0) = true /\ isNodeAfter_struct T1 (snd e_a1) (snd e_c0) = false.
+Proof. vm_compute. repeat split. Qed.
+
+Example producers_example :
+  findAncestorsOrSelf T1 (fun _ => true) (snd e_ca) = ([[SA 0; SC 1; SC 0]; [SC 1; SC 0]; [SC 0]; []], RevOrder) /\
+  findPreceedingSiblings T1 (fun _ => true) (snd e_c2) = ([[SC 1; SC 0]; [SC 0; SC 0]], RevOrder) /\
+  step_finish (findPreceedingSiblings T1 (fun _ => true) (snd e_c2)) = ([[SC 0; SC 0]; [SC 1; SC 0]], DocOrder) /\
+  findChildren T1 (fun n => negb (rnode_eqb n [SC 1; SC 0])) [SC 0] = ([[SC 0; SC 0]; [SC 2; SC 0]], DocOrder).
 Proof. vm_compute. repeat split. Qed.
 
 Example union_operands_satisfiable :
